@@ -31,8 +31,7 @@ BAD = ("panic", "oom", "alloc", "timeout")
 # Genuine defects of relic found by this check and not yet dispositioned (fix: commit or known_findings.json).
 # Exactly these keys are downgraded to printed SUSPECTED-DEFECT lines; any other crash is a VIOLATION.
 # key -> one-line cause
-SUSPECTED = {
-}
+SUSPECTED = {}   # no private channel: undispositioned defects fail the run (see known_findings.json)
 
 
 def keyfile(key):
@@ -52,6 +51,12 @@ def run_cases(ctx, cases, tag, jobs=16, timeout=10, wall=3000):
     res = [json.loads(l) for l in out.splitlines() if l.startswith("{")]
     if rc != 0 or len(res) != len(cases):
         raise RuntimeError("c11run failed (rc=%s, %d/%d results): %s" % (rc, len(res), len(cases), err[-400:]))
+    # A recorded finding that blames a third-party module (ar, go-rpmutils) must not absorb a crash raised by relic's OWN
+    # code in the same function: the key only names the first relic frame. Such crashes get their own key.
+    third = {k["key"] for k in ctx.known if k.get("status") == "finding" and k.get("property") == ctx.pid and "third-party module" in k.get("what", "")}
+    for r in res:
+        if r.get("class") in BAD and r.get("key") in third and (r.get("top_frame") or "").startswith("github.com/sassoftware/relic/v8/"):
+            r["key"] += "@relic-code"
     return res
 
 
@@ -221,7 +226,7 @@ def select_quick(cases, seed, budget):
     groups = {}
     keep = []
     for c in cases:
-        if c.get("valid"):
+        if c.get("valid") or c.get("always"):
             keep.append(c)
         else:
             groups.setdefault(mutation_kind(c), []).append(c)
@@ -265,7 +270,10 @@ def corpus_cases(entries):
 
 
 # ------------------------------------------------------------------------------------------------- proof half
-PARSERS = ["binpatch_load", "zip_cd", "apk_signers", "apk_signed_data", "apk_v2", "xap_trailer", "csblob_super", "apk_digest_loop"]
+PARSERS = ["binpatch_load", "zip_cd", "apk_signers", "apk_signed_data", "apk_v2", "xap_trailer", "csblob_super", "apk_digest_loop",
+           "deb_control", "deb_checksig", "jar_manifest", "jar_digest", "pgp_tail", "pgp_head", "pgp_detach", "jar_split"]
+# in-process parsers whose real panics are the same defect the crash harness keys from the Go trace
+PANIC_KEYS = {"deb_checksig": "C11:signdeb.checkSig:index"}
 
 
 def proof_half(ctx, st, cov):
@@ -277,6 +285,17 @@ def proof_half(ctx, st, cov):
     cases = [json.loads(l) for l in out.splitlines() if l.startswith("{")]
     cov["model_cases"] = len(cases)
     if not st["model_ok"]:
+        # no model to compare with (its Coq source no longer builds): the property itself still applies to what was observed
+        seen = set()
+        for c in cases:
+            key = PANIC_KEYS.get(c["parser"], "C11:%s:panics" % c["parser"])
+            if c["class"] == "panic" and key not in seen:
+                seen.add(key)
+                what = "the real %s panics (%s) on a generated input (kind %s): %s" % (c["parser"], c.get("detail"), c.get("kind"), bytes.fromhex(c["input"])[:100])
+                if key in SUSPECTED:
+                    ctx.suspected_hits[key] = ctx.suspected_hits.get(key) or what
+                else:
+                    ctx.violation(key, what, {"cases": [c]}, True)
         return
     vals = [[PARSERS.index(c["parser"]), Hex(c["input"]), list(c.get("args") or [])] for c in cases]
     try:
@@ -284,7 +303,7 @@ def proof_half(ctx, st, cov):
     except RuntimeError as e:
         ctx.violation("C11:model-eval", str(e)[-300:], {"output": str(e)}, False)
         return
-    mism, spec_fail, dist = [], [], {}
+    mism, spec_fail, spec_diff, agreed_panics, dist = [], [], [], {}, {}
     for c, r in zip(cases, res):
         mclass, mvals, sclass, merr = r[0], r[1], r[2], r[3]
         oclass = {"ok": 0, "error": 1, "panic": 2}[c["class"]]
@@ -292,15 +311,33 @@ def proof_half(ctx, st, cov):
         dist[dk] = dist.get(dk, 0) + 1
         if mclass != oclass or (oclass == 0 and c.get("vals") is not None and list(mvals) != list(c["vals"])) or (oclass == 1 and merr != c.get("errc")):
             mism.append((c, r))
+        elif oclass == 2:
+            # the real parser panics and the faithful model says so too (a `_refuted` theorem): still a failing input of the property
+            agreed_panics.setdefault(c["parser"], []).append(c)
         # independent spec: a well-formed input (per the format specification) must be accepted; the spec never panics
         if sclass == 0 and oclass == 2:
             spec_fail.append((c, r))
+        # deb control files: on policy-conformant simple files the values must be the policy reader's (5th field of the model output)
+        if c["parser"] == "deb_control" and sclass == 0 and oclass != 2 and len(r) > 4 and (oclass != 0 or list(r[4]) != list(c.get("vals") or [])):
+            spec_diff.append((c, r))
     cov["model_distribution"] = dist
     cov["model_mismatches"] = len(mism)
     for c, r in spec_fail[:3]:
         # a well-formed structure on which the real parser panics: concrete failing input of the property
         ctx.violation("C11:%s:panics-on-wellformed" % c["parser"], "real parser panics on an input the format specification accepts: " + c.get("detail", ""),
                       {"cases": [c], "model": r})
+    cov["spec_simple_control_files"] = sum(1 for c, r in zip(cases, res) if c["parser"] == "deb_control" and r[2] == 0)
+    for c, r in spec_diff[:1]:
+        ctx.violation("C11:deb_control:differs-from-policy-reader", "parseControl and the Debian policy reader disagree on a simple well-formed control file (%d inputs; first: real=%s/%s spec=%s)" %
+                      (len(spec_diff), c["class"], c.get("vals"), r[4]), {"cases": [c], "model": r}, False)
+    for parser, cs in sorted(agreed_panics.items()):
+        key = PANIC_KEYS.get(parser, "C11:%s:panics" % parser)
+        x = min(cs, key=lambda c: len(c["input"]))
+        what = "%s — the real %s panics on %d generated inputs (%s), as its faithful model does; smallest: %s" % (key, parser, len(cs), x.get("detail"), bytes.fromhex(x["input"])[:100])
+        if key in SUSPECTED:
+            ctx.suspected_hits[key] = ctx.suspected_hits.get(key) or what
+        else:
+            ctx.violation(key, what, {"cases": [x]}, True)
     if mism:
         c, r = mism[0]
         # does the disagreement violate the property?  Only if the real code panicked where the model says it would not,
@@ -326,6 +363,7 @@ def run(ctx, replay=None):
         return ctx.finish("proof", cov, [])
     t_start = time.time()
     suspected_hits, new_fail = {}, {}
+    ctx.suspected_hits = suspected_hits
     notes = ctx.notes
 
     if replay:
@@ -410,17 +448,17 @@ def run(ctx, replay=None):
             r0["class"], r0["detail"][:200], r0.get("frame") or r0.get("top_frame"), rel, len(data), ", " + how if how else "", server_reachable(rs)),
             {"cases": [case], "input_hex": data.hex() if len(data) <= 4096 else data[:4096].hex() + "...", "original_case": {k: r0.get(k) for k in ("id", "base", "ops", "mut", "entry", "sigtype")},
              "trace": r0.get("trace", "")[:3000], "entry_points": ents, "executions": len(rs)})
-    for key, what in sorted(suspected_hits.items()):
-        print("SUSPECTED-DEFECT: property=C11 %s" % what)
     for exp, ent, cls, k in stale[:20]:
         notes.append("corpus entry %s (%s) no longer reproduces under its key (now %s %s) — fixed or moved" % (exp, ent, cls, k))
-    unseen = sorted(set(SUSPECTED) - set(suspected_hits))
-    if unseen and not replay:
-        notes.append("SUSPECTED keys not reproduced in this run (fixed? remove from the list): %s" % unseen)
 
     # ---------------- proof half
     proof_half(ctx, st, cov)
     ctx.proof_verdict()
+    for key, what in sorted(suspected_hits.items()):
+        print("SUSPECTED-DEFECT: property=C11 %s" % what)
+    unseen = sorted(set(SUSPECTED) - set(suspected_hits))
+    if unseen and not replay:
+        notes.append("SUSPECTED keys not reproduced in this run (fixed? remove from the list): %s" % unseen)
 
     # ---------------- evidence
     dist, fams, ents = {}, {}, {}
@@ -432,12 +470,12 @@ def run(ctx, replay=None):
     pc = ctx.proof_coverage(["srcgen translator (guards of binpatch.Load, zipslicer.ReadWithDirectory, apk.unmarshalR/getSigBlock, authenticode.readOptHeader/checkSignatures, signxap.removeSignature, csblob.parseSuper)",
                              "crash harness drv-c11 c11run/c11one: real relic entry points in fresh subprocesses (RLIMIT_AS 2 GiB, 10 s), classification from exit status and Go trace",
                              "memory bound for the class `alloc`: runtime.MemStats.Sys <= 64*|input| + 96 MiB (largest valid fixture run used %d bytes)" % mem_max],
-                            ["lib/binpatch", "lib/zipslicer", "signers/apk", "lib/authenticode", "lib/signxap", "lib/fruit/csblob"])
+                            ["lib/binpatch", "lib/zipslicer", "signers/apk", "lib/authenticode", "lib/signxap", "lib/fruit/csblob", "lib/signdeb", "lib/signjar", "lib/pgptools"])
     cov.update(pc)
     cov.update({
         "evaluations": len(results) + cov.get("model_cases", 0),
         "distinct_nontrivial": len(inputs),
-        "rule": "crash harness: corpus of minimised crashers first, then per-format structure-aware corruption (every length/offset/count field <- boundary values, truncation at structure boundaries and every N-th byte, header bit flips, seeded random mutation, rebuilt archives with corrupted members, crafted upload tarballs) of every fixture, every fixture signed by the real binary and every transform output; each input presented to verify / is-signed / transform / POST /sign (raw and via the client transform). non-trivial = distinct malformed inputs (sha256) executed. quick tier samples every (family, mutation kind, entry) group; thorough runs the full generated set",
+        "rule": "crash harness: corpus of minimised crashers first, then per-format harness-built .deb files around structured control texts (empty lines, no colon, only a colon, leading blanks, comments, CR LF, NUL, no final newline, lines around the 65536 scanner limit; gz / xz / bz2 / plain control.tar) through POST /sign, .deb files whose _gpgbuilder digest list is clearsigned by a throw-away key through verify, cleartext PGP signing of documents with lines at the scanner limit, then structure-aware corruption (every length/offset/count field <- boundary values, truncation at structure boundaries and every N-th byte, header bit flips, seeded random mutation, rebuilt archives with corrupted members, crafted upload tarballs) of every fixture, every fixture signed by the real binary and every transform output; each input presented to verify / is-signed / transform / POST /sign (raw and via the client transform). non-trivial = distinct malformed inputs (sha256) executed. quick tier samples every (family, mutation kind, entry) group; thorough runs the full generated set",
         "samples": [{k: r.get(k) for k in ("id", "entry", "sigtype", "class", "err", "size", "ms")} for r in results[len(results) // 3: len(results) // 3 + 3]],
         "exhaustive": False,
         "outcome_distribution": dist, "by_family": fams, "by_entry_point": ents,
@@ -448,6 +486,8 @@ def run(ctx, replay=None):
     })
     return ctx.finish("proof", cov, ["Go runtime reports every panic / fatal error of any goroutine on stderr with exit status 2",
                                      "RLIMIT_AS 2 GiB and the Sys bound stand for 'memory proportional to the input'; decompression ratios of zlib/xz/deflate members are not bounded by the property as checked",
+                                     "text parser models: bufio.Scanner (ScanLines, 65536-byte token limit), strings/bytes Index / Trim / SplitN / ReplaceAll and the ar / gzip / xz / bzip2 / tar readers are taken as specified (checked on the real code by the in-process comparison); ToLower / TrimSpace modelled on ASCII",
+                                     "the site analysis of srcgen is a light syntactic one: a site it lists as unguarded may be safe (reviewed list), a site it accepts is dominated by a length / index-result / range fact on the same expression text",
                                      "completeness over all parsers is not claimed: only the listed parsers have forall-theorems, the rest is corpus + mutation exploration"])
 
 
@@ -460,8 +500,13 @@ ENTRY_THEOREMS = {
     "apk.getSigBlock + pair loop of apk.verify + signer list parse": "C11.Properties.apk_v2_parse_no_panic",
     "zipslicer.ReadWithDirectory (entry loop, end records)": "C11.Properties.zip_directory_no_panic, zip_entries_fuel",
     "apkSigner.Verify digest comparison loop": "C11.Properties.verify_digests_no_panic",
+    "signdeb.parseControl (line loop; helper goroutine of signdeb.Sign, drained pipe)": "C11.Properties.parse_control_no_panic, parse_control_ok_fields, sign_control_pipe_no_panic",
+    "signdeb.checkSig": "C11.Properties.check_sig_no_panic (every body; the former crasher is cs_witness_is_error)",
+    "signjar.splitManifest / parseSection / parseManifest / DigestManifest (section indexing)": "C11.Properties.split_manifest_no_panic, parse_section_no_panic, parse_manifest_no_panic, digest_manifest_no_panic, split_manifest_empty_iff",
+    "pgptools.tailClearSign / headClearSign and the pipe of DetachClearSign / MergeClearSign": "C11.Properties.tail_clear_sign_no_panic, head_clear_sign_no_panic, detach_clear_sign_no_hang, released_pipe_scanners_no_panic (unreleased_pipe_hangs: why the release matters)",
+    "index / slice / type-assertion sites without a dominating check, goroutines without recover (12 input-facing packages)": "C11.Properties.modelled_sites_reviewed, unguarded_sites_reviewed, goroutines_reviewed (srcgen AST analysis = reviewed lists)",
     "authenticode.DigestPowershell": "FmtPS.Properties.ps_hashin_no_panic (built and counted by the FMTPS unit, also part of C01/C02/C03/C05/C08)",
     "authenticode.VerifyPowershell (up to the PKCS#7 parser)": "FmtPS.Properties.ps_extract_no_panic",
 }
 CORPUS_ONLY = ["comdoc reader / MSI digest", "cabfile.Digest", "authenticode PE digest / verify", "csblob code directory / requirements", "xar", "dmg", "machos",
-               "signjar manifest", "signappx", "vsix", "xmldsig / appmanifest", "signdeb / ar", "pgp", "rpm (go-rpmutils)", "pkcs7 / pkcs9", "certloader", "magic"]
+               "signjar verify / digest beyond the manifest text layer", "signappx", "vsix", "xmldsig / appmanifest", "ar / gzip / xz / bzip2 / tar readers in front of signdeb", "OpenPGP packet parsers", "rpm (go-rpmutils)", "pkcs7 / pkcs9", "certloader", "magic"]
